@@ -110,6 +110,36 @@ net('traced-gate', {'a': 2, 'q': 2, 'x': 2, 'y': 2, 'o': 2, 'd': 2},
      ('reg', lambda s, W: Reg(s, 'reg', W['d'], W['q']))], ['a'])
 
 
+def _same_name_classes():
+    """two DIFFERENT Logic subclasses that share their __name__: a structural one (children, no propagate) and a
+    behavioural leaf (propagate)"""
+    def s_init(self, parent, name, a, r):
+        py4hw.Logic.__init__(self, parent, name)
+        self.addIn('a', a)
+        self.addOut('r', r)
+        Not(self, 'inner', a, r)
+    S = type('Inc', (py4hw.Logic,), {'__init__': s_init})
+
+    def b_init(self, parent, name, a, r):
+        py4hw.Logic.__init__(self, parent, name)
+        self.a = self.addIn('a', a)
+        self.r = self.addOut('r', r)
+
+    def b_prop(self):
+        self.r.put(self.a.get() + 1)
+    B = type('Inc', (py4hw.Logic,), {'__init__': b_init, 'propagate': b_prop})
+    return S, B
+
+
+_IncS, _IncB = _same_name_classes()
+
+net('same-name-classes', {'a': 2, 'x': 2, 'y': 2, 'z': 2, 'o': 2},
+    [('s', lambda s, W: _IncS(s, 's', W['a'], W['x'])),
+     ('b', lambda s, W: _IncB(s, 'b', W['x'], W['y'])),
+     ('n', lambda s, W: Not(s, 'n', W['y'], W['z'])),
+     ('b2', lambda s, W: _IncB(s, 'b2', W['z'], W['o']))], ['a'])
+
+
 def random_net(seed):
     """seeded acyclic netlist of 4..6 leaves over 2-bit wires (feedback only through a Reg)"""
     rnd = random.Random('net/%d' % seed)
@@ -222,7 +252,7 @@ def fixpoint_conds(s):
     (leaf path, z3 cond 'some output differs from the recomputed value')"""
     conds = []
     for leaf in own_leaves(s):
-        if not leaf.isPropagatable():
+        if not callable(getattr(type(leaf), 'propagate', None)):       # own classification, not Logic.isPropagatable
             continue
         if isinstance(leaf, (Latch,)) or type(leaf).__name__ == 'AsynchronousMemory':
             continue
@@ -253,7 +283,7 @@ def order_task(p, cfg, rec):
         sn, _ = run_net(name, order, late, values=values, nest=nest)
         for lab, vals, s, sim in sn:
             for leaf in own_leaves(s):
-                if leaf.isPropagatable() and not isinstance(leaf, Latch):
+                if callable(getattr(type(leaf), 'propagate', None)) and not isinstance(leaf, Latch):
                     outs = [q.wire for q in leaf.outPorts]
                     old = [w.value for w in outs]
                     leaf.propagate()
